@@ -111,7 +111,6 @@ func mkAtom(cd Cond) (atom, bool) {
 
 // truthAtoms: the conjunction under which a bool function returns true.
 func truthAtoms(p *Prog, fn *ssa.Function) ([]atom, bool) {
-	g := p.G(fn)
 	var ret *ssa.Return
 	n := 0
 	allInstrs(fn, func(in ssa.Instruction) {
@@ -123,8 +122,14 @@ func truthAtoms(p *Prog, fn *ssa.Function) ([]atom, bool) {
 	if n != 1 || len(ret.Results) != 1 {
 		return nil, false
 	}
+	return truthAtomsOf(p, fn, ret.Results[0])
+}
+
+// truthAtomsOf: the conjunction under which the bool value v (a phi of a short-circuit && or a
+// single comparison) is true.
+func truthAtomsOf(p *Prog, fn *ssa.Function, v ssa.Value) ([]atom, bool) {
+	g := p.G(fn)
 	var conds []Cond
-	v := ret.Results[0]
 	if ph, ok := v.(*ssa.Phi); ok {
 		nonFalse := 0
 		for i, e := range ph.Edges {
@@ -439,6 +444,41 @@ func ruleGrow(c *Ctx) {
 			}
 		})
 		c.check(clamp, R, "resize:clamp-maxSize", p.pos(fn.Pos()), "the grown size is compared with maxSize", "resize ignores RegistryMaxSize")
+	}
+	if fn := c.need(R, "lua", "(*registry).resize"); fn != nil {
+		// every candidate for the new size is maxSize or requiredSize + padding, so that the overflow
+		// test (newSize < requiredSize) can only fire when requiredSize exceeds maxSize
+		maxF := p.Field("lua", "registry", "maxSize")
+		force := p.Fn("lua", "(*registry).forceResize")
+		okc := false
+		why := ""
+		for _, cl := range callsTo(fn, force) {
+			okc = true
+			var cands []ssa.Value
+			var collect func(v ssa.Value, d int)
+			collect = func(v ssa.Value, d int) {
+				if ph, ok := v.(*ssa.Phi); ok && d < 4 {
+					for _, e := range ph.Edges {
+						collect(e, d+1)
+					}
+					return
+				}
+				cands = append(cands, v)
+			}
+			collect(cl.Call.Args[1], 0)
+			for _, cand := range cands {
+				if _, isMax := loadsField(cand, maxF); isMax {
+					continue
+				}
+				l := lin(cand)
+				if l.T["p:requiredSize"] == 1 {
+					continue
+				}
+				okc = false
+				why = shortKey(vkey(cand))
+			}
+		}
+		c.check(okc, R, "resize:grows-from-required", p.pos(fn.Pos()), "the new size is maxSize or requiredSize + padding", "resize derives the new size from "+why+" instead of the required size: a single operation that needs more than one grow step raises a spurious 'registry overflow' far below RegistryMaxSize (Options change the behaviour of a program within the limits)")
 	}
 	if fn := c.need(R, "lua", "(*LState).registryOverflow"); fn != nil {
 		c.check(p.noret[fn], R, "registryOverflow:raises", p.pos(fn.Pos()), "raises a Lua error (never returns)", "registryOverflow can return: the store that needed the space proceeds out of range")
